@@ -117,6 +117,18 @@ def units():
                                   ('swap__r' + V4, ['C01', 'C02', 'C05', 'C06', 'C07'], [b + '__swap_impl__r' + b])]:
                 add('vec4.%s.%s.%s' % (m.split('__')[0] + '_' + m.split('__')[1][:4], et, sz), V4 + '__' + m, props, 1, b, sz, elem, replace=rep)
                 us[-1]['defs']['VEC_N'] = '4'
+    # ---- swap2 between flavours (C13): ordered pairs, same 8-bit size type in the quick tier, mixed 8/16-bit in the thorough tier
+    FL3 = {'small': (1, 'SmallVectorBase_E_A_%s', 'VectorImpl_E_A_%s_t_Dyn'), 'std': (2, 'StdVectorBase_E_A_%s', 'VectorImpl_E_A_%s_f_Dyn'),
+           'static': (3, 'StaticVectorBase_E_%s', 'VectorImpl_E_X_%s_t_Exc')}
+    for elem in ('ElemNR', 'ElemTR'):
+        et = ELEM_TAG[elem]
+        for s1, s2, tier in (('u8', 'u8', 'quick'), ('u8', 'u16', 'thorough'), ('u16', 'u8', 'thorough')):
+            if elem == 'ElemTR' and s1 != s2:
+                continue
+            for f1, (n1, b1, v1) in FL3.items():
+                for f2, (n2, b2, v2) in FL3.items():
+                    add('swap2.%s_%s.%s.%s_%s' % (f1, f2, et, s1, s2), (v1 % s1) + '__swap2__r' + (v2 % s2), ['C13', 'C01', 'C02', 'C06'], n1, b1 % s1, s1, elem, tier=tier)
+                    us[-1]['defs'].update({'FLAVOUR2': str(n2), 'BASE2_T': 'struct ' + (b2 % s2), 'KMAX2': SIZES[s2][1], 'S2_T': SIZES[s2][0]})
     # ---- FlatSet over amc::vector<E, A, size_type>: 8-bit size_type in the quick tier, the default 32-bit one in the thorough tier
     for fsz, tier in (('u8', 'quick'), ('u32', 'thorough')):
         FS = 'FlatSet_E_GhostCmp_A_Vector_E_A_%s_Dyn_0' % fsz
